@@ -597,6 +597,44 @@ def r5(ctx):
                      replay_input=v.spec() + ' flags: ' + ' '.join(v.flags), variant=v.describe())
     return n
 
+CSIZE_DEFAULTS = [
+    # (name, %option words, documented default character-set size) - manual, option -7: 8-bit by default; 7-bit by default
+    # with -Cf/-CF; "if you use -Cfe or -CFe ... flex still defaults to generating an 8-bit scanner"
+    ('Cem', ['ecs', 'meta-ecs'], 256), ('C', ['noecs', 'nometa-ecs'], 256), ('Ce', ['ecs', 'nometa-ecs'], 256),
+    ('Cf', ['full'], 128), ('CF', ['fast'], 128), ('Cfe', ['full', 'ecs'], 256), ('CFe', ['fast', 'ecs'], 256), ('Cfae', ['full', 'align', 'ecs'], 256),
+    ('Cf7', ['full', 'ecs', '7bit'], 128), ('Cf8', ['full', '8bit'], 256), ('Cem7', ['7bit'], 128),
+]
+
+def r6(ctx):
+    """R6: the documented default of -7/-8: read the character-set size the generator chose from the dimensions of the
+    emitted tables (yy_ec length with equivalence classes, row length of yy_nxt for -Cf without them, YY_NUL_EC for -CF)."""
+    import tbl
+    rep = ctx.rep
+    vs = []
+    for name, opts, want in CSIZE_DEFAULTS:
+        spec = ''.join('%%option %s\n' % o for o in ['noyywrap'] + opts) + '%%\n[a-z]+  { return 1; }\n[0-9]+ { return 2; }\n.|\\n { }\n%%\n'
+        vs.append((variants.Variant('csize_%s' % name, 'nr', (), ['noyywrap'] + opts, raw_spec=spec), want))
+    variants.instantiate(ctx.art, [v for v, _ in vs], 'csize')
+    n = 0
+    for v, want in vs:
+        n += 1
+        key = 'C19.R6:default-character-size:%s' % v.name.split('_', 1)[1]
+        if v.ll is None:
+            rep.fail('C19.R6', key + ':not-generated', v.name, 'flex did not generate a scanner for %%option %s: %s' % (' '.join(v.options), (v.stderr or v.ll_err).strip().split('\n')[-1][:120]), variant=v.describe()); continue
+        mod = variants.module(v)
+        d = tbl.defines(open(v.src, errors='replace').read())
+        got = None
+        ec = tbl.int_array(mod, 'yy_ec')
+        if ec is not None: got = len(ec)
+        elif 'yy_nxt' in mod.globals and mod.globals['yy_nxt'].ty.k == 'arr' and mod.globals['yy_nxt'].ty.b.k == 'arr': got = mod.globals['yy_nxt'].ty.b.a
+        elif d.get('YY_NUL_EC') is not None: got = d['YY_NUL_EC']      # without equivalence classes NUL is given the class number csize
+        if got == want:
+            rep.ok('C19.R6', '%%option %s: %d-bit scanner as documented' % (' '.join(v.options[1:]) or '(default)', 8 if want == 256 else 7))
+        else:
+            rep.fail('C19.R6', key, v.name, 'with %%option %s the generated tables cover %s character codes; the manual documents a %d-bit scanner (%d codes) for this combination' % (
+                ' '.join(v.options[1:]) or '(default)', got, 8 if want == 256 else 7, want), replay_input=v.spec(), variant=v.describe())
+    return n
+
 def run(ctx):
     rep = ctx.rep
     sp = lex.parse_spec(ctx.art.source('scan.l'))
@@ -605,6 +643,7 @@ def run(ctx):
     n3 = r3(ctx, sp, en, tbl, sw)
     n4 = r4(ctx) + r4_structure(ctx) + r4_single(ctx)
     n5 = r5(ctx)
+    n6 = r6(ctx)
     rep.setcount('flexopt_enumerators', len(en)); rep.setcount('flexopts_entries', len(tbl))
     rep.setcount('plumbing_symbols', len(plumbing)); rep.setcount('cli_vs_option_pairs', n3)
     rep.floor('C19.R1', 100, '94 enumerators + 14 %option tokens')
@@ -612,6 +651,7 @@ def run(ctx):
     rep.floor('C19.R3', 55, 'options that exist in both spellings')
     rep.floor('C19.R4', 25, 'noyy* options in the nr/r variants')
     rep.floor('C19.R5', 12, 'options that carry a value')
+    rep.floor('C19.R6', 10, 'table options x documented default of -7/-8')
     rep.undecided += ['the observable run-time effect of each option (value-level)', 'documentation agreement of option descriptions',
                       'options that exist in only one spelling are compared with nothing']
     rep.assumptions += ['the region evaluator covers the straight-line/branching shapes of today\'s option actions; an action it cannot evaluate is listed in notes, not judged']
